@@ -376,6 +376,9 @@ func (s *Sim) generateBlock() *BlockSpec {
 		if s.Cfg.RestartEveryHeight {
 			spec.Faults = []Fault{{Kind: "restart_after_commit"}}
 		}
+		if fr.IntN(3) == 0 {
+			spec.Faults = append([]Fault{{Kind: "replica_mempool_and_queries"}}, spec.Faults...)
+		}
 	}
 	// cool-down (bounded liveness once faults stop): for the last CoolDown blocks of a run no
 	// fault is injected, only the feeders, governance and the canary act; the canary's plain
@@ -646,6 +649,34 @@ func (s *Sim) applyReplica(spec *BlockSpec, blk *Block, eb *ExecBlock) {
 	done := false
 	for _, f := range spec.Faults {
 		switch f.Kind {
+		case "replica_mempool_and_queries":
+			// what a real node does besides executing blocks, and the reference node never does:
+			// CheckTx of the block's transactions on its check state, and read-only queries through
+			// the keepers (price, asset and portfolio look-ups). Neither may influence block results.
+			for _, bz := range blk.Txs {
+				func() {
+					defer func() { _ = recover() }()
+					if r, err := s.N1.App.CheckTx(&abci.RequestCheckTx{Tx: bz, Type: abci.CheckTxType_New}); err == nil && r != nil && r.Code == 0 {
+						s.Stats.Inc("probe/replica_checktx_accepted", 1)
+					}
+				}()
+			}
+			func() {
+				defer func() { _ = recover() }()
+				qc, _ := s.N1.App.BaseApp.NewUncachedContext(true, cmtproto.Header{Height: blk.Height - 1, Time: blk.Time, ChainID: ChainID}).CacheContext()
+				for _, a := range Universe {
+					_, _ = s.N1.App.AssetprofileKeeper.GetEntryByDenom(qc, a.Denom)
+					_ = s.N1.App.OracleKeeper.GetAssetPriceFromDenom(qc, a.Denom)
+				}
+				for i, u := range s.W.Users {
+					if i >= 3 {
+						break
+					}
+					_, _ = s.N1.App.TierKeeper.GetMembershipTier(qc, u.Addr)
+				}
+				_ = s.N1.App.AmmKeeper.GetAllPool(qc)
+			}()
+			s.Stats.Inc("fault/replica_ran_checktx_and_queries", 1)
 		case "crash_before_commit":
 			// FinalizeBlock runs, process dies before Commit, block is re-delivered after restart.
 			r := s.N1.Finalize(s.W, blk)
